@@ -29,6 +29,12 @@ type pipeCase struct {
 	SleepAt []int    `json:"sleep_at"` // indices of writes after which the writer pauses
 	SleepUs int      `json:"sleep_us"`
 	FailAt  int      `json:"fail_at"`
+	// What else the failing callback does before it returns its error (cancel.go).  None of it changes what
+	// the property demands: records 0..FailAt delivered, exactly the callback's error returned.
+	Cancel     string `json:"cancel,omitempty"`      // "" | in-callback | outside | earlier: who cancels Ingest's context, and when
+	CancelAt   int    `json:"cancel_at,omitempty"`   // earlier: the callback for record CancelAt (< FailAt) cancels and returns nil
+	WaitCloser bool   `json:"wait_closer,omitempty"` // wait (bounded) until the reader's descriptor on the FIFO is gone before returning the error
+	HoldOpen   bool   `json:"hold_open,omitempty"`   // the writer keeps its end open until Ingest has returned (no end-of-stream in sight)
 }
 
 func expandSegs(ss []seg) []byte {
@@ -114,6 +120,7 @@ func coqListN(xs []int) string {
 
 var shapes = []string{"small", "many", "long", "boundary", "degenerate", "small", "many", "long"}
 var delims = []int{'\n', '\n', '\n', '\n', 0, ' ', 0xff, ';', '\r'}
+var cancelKinds = []string{"in-callback", "outside", "in-callback", "outside", "earlier"}
 var policies = []string{"one", "bytewise", "tiny", "random", "blocks", "per-record", "before-delim", "two"}
 
 // interesting lengths around bufio's 4096-byte buffer and the 64 KiB pipe capacity
@@ -279,6 +286,25 @@ func genPipeCase(r *hutil.Rand, i int) pipeCase {
 			c.FailAt = -1
 		} else {
 			c.FailAt = r.Intn(len(bodies) + 2)
+		}
+	}
+
+	// the error on the LAST record (end of stream next, or the tail) more often than chance would have it
+	if c.FailAt >= 0 && len(bodies) > 0 && r.Chance(1, 5) {
+		c.FailAt = len(bodies) - 1
+	}
+	// the failing callback may also see / cause the cancellation of Ingest's context before it returns its error
+	if c.FailAt >= 0 && r.Chance(3, 5) {
+		c.Cancel = hutil.Pick(r, cancelKinds)
+		c.WaitCloser = r.Chance(3, 4)
+		c.HoldOpen = r.Bool()
+		if c.Cancel == "earlier" {
+			// the cancellation comes in during an earlier, successful callback (mostly the one just before)
+			if c.FailAt == 0 {
+				c.Cancel = "in-callback"
+			} else if c.CancelAt = c.FailAt - 1; r.Bool() {
+				c.CancelAt = r.Intn(c.FailAt)
+			}
 		}
 	}
 
